@@ -5,6 +5,7 @@ import NibabelModel.Lemmas.C06_NpSpecProofs
 import NibabelModel.Lemmas.C06_GenFuncs
 import NibabelModel.Lemmas.C06_GenSegs
 import NibabelModel.Lemmas.C06_GenCanon
+import NibabelModel.Lemmas.C06_GenPlan
 /-! Props/C06 — property theorems for C06 (reading a slice from file bytes equals NumPy indexing).
     Stage A (per axis), stage B (segments), stage C (whole) — see DESIGN.md §5 C06.
 
@@ -508,5 +509,24 @@ open Nb.Py in
 example : Gen.C06F.canonical_slicers (V.ofList [.int (-1), .ellipsis, .none, .slice (.int 0) (.int 3) .none])
       (ofShape [4, 5, 3]) (.bool true)
     = .ok (V.ofList [.int 3, .slice .none .none .none, .none, .slice .none .none .none]) := by decide
+
+open Nb.Py in
+/-- **T12** the translated `predict_shape` returns the SHAPE OF NUMPY INDEXING (`npSpec`, the independent
+    NumPy specification) for every index tuple with at most one Ellipsis and non-zero slice steps, and
+    raises whenever NumPy indexing raises — the "helper predictions agree with NumPy" clause of the
+    property, about the current source. -/
+theorem source_predict_shape_numpy (idx : List IdxItem) (shape : List Nat)
+    (hv : ∀ s, IdxItem.slice s ∈ idx → s.Valid) (he : nEllipsis idx ≤ 1) :
+    match (npSpec idx shape).map outShape with
+    | .ok sh => Gen.C06F.predict_shape (V.ofList (idx.map ofIdx)) (ofShape shape) = .ok (ofShape sh)
+    | .error _ => ∃ e, Gen.C06F.predict_shape (V.ofList (idx.map ofIdx)) (ofShape shape) = .error e := by
+  have h := gen_predict_shape_eq idx shape hv
+  rw [predict_shape_spec idx shape hv he] at h
+  exact h
+
+open Nb.Py in
+example : Gen.C06F.predict_shape
+      (V.ofList [.ellipsis, .none, .slice (.int (-9)) .none (.int 2), .int (-2)]) (ofShape [4, 5, 3])
+    = .ok (ofShape [4, 1, 3]) := by decide
 
 end Nb.C06
